@@ -113,7 +113,7 @@ PROPS["C02"] = {
 }
 # C05: parser half (lexprops::c05_parser_stream); a fold stream can be appended in lexprops::run_c05
 PROPS["C05"] = {
-    "props": [],
+    "props": ["Props/C05.v"],
     "run": ["Run/LexRun.v"],
     "tables": ["T2"],
     "n_quick": 360,
